@@ -1,28 +1,39 @@
-"""C18 -- all entry points and configuration layers agree (wiring rules on __init__.py)."""
+"""C18 -- all entry points and configuration layers agree.
+
+The wiring of __init__.py is checked *semantically*: the entry points, the merge helper, set_default_config,
+get_default_config, the PrettyPrinter shim and pretty_repr are interpreted abstractly (E6) with the pipeline
+(python_to_sdocs, the two renderers) as recording primitives.  For every scenario - each setting either given or
+omitted - the recorded calls must show: the printed object first, every setting equal to the given argument or
+else to the *current* default table, the rendering of the same sdocs to the chosen stream, then the end string.
+How the source spells this (helper functions, locals() idiom, loops over key tuples, keyword vs positional) does
+not matter."""
 import ast
 
-from engine.astutil import src, call_name, Guards, compare_parts, names_in, dotted
+from engine.astutil import src, call_name, dotted
+from engine.interp import (Const, Sym, SymStr, ListV, TupleV, DictV, ObjV, TypeV, ValueV, FuncV, Prim, NONE, Undecided, Raised, prov)
 from engine.loader import AnalysisError
+from . import shape as S
 
 META = {
-    'text': 'Static wiring rules over prettyprinter/__init__.py: the three entry points pass the printed object '
-            'first and all six settings, each under its own name, through the merge helper into python_to_sdocs; '
-            'the name sets (merge parameters = keys of the default table = keywords passed = parameters of '
-            'python_to_sdocs) agree; per key the merged value is the argument unless it is the sentinel; defaults '
-            'are read at call time; pprint/cpprint write the rendering of the same sdocs to the chosen stream '
-            'then the end string; set_default_config stores exactly the keys it is given, each under its own '
-            'name and guard; nobody else writes the default table; the PrettyPrinter shim forwards its argument; '
-            'pretty_repr returns pformat(instance). This property is almost entirely wiring, so the structural '
-            'clauses cover it except for the behaviour of python_to_sdocs itself (other properties).',
-    'note': 'trusts the ast parser; locals()-indexed merge idiom and the explicit per-key idiom are both recognised',
-    'technique': 'static analysis: sibling agreement of call wiring, name-set agreement, guard facts, who-may-write',
+    'text': 'Abstract interpretation of prettyprinter/__init__.py with the pipeline as recording primitives: for pformat, pprint and '
+            'cpprint, and for each setting given or omitted, python_to_sdocs receives the printed object first and every setting '
+            'equal to the explicit argument or else to the current default table (also after set_default_config, i.e. defaults '
+            'are read at call time); pformat returns exactly what the plain renderer wrote; pprint/cpprint render the same sdocs '
+            'to the given stream (sys.stdout read at call time otherwise) and then write the end string; set_default_config '
+            'changes exactly the keys it is given and get_default_config reports the current table; the PrettyPrinter shim '
+            'forwards its argument and stored settings; pretty_repr returns pformat(instance) for registered types. Nobody else '
+            'writes the default table (who-may-write). This property is almost entirely wiring, so these clauses cover it except '
+            'for the behaviour of python_to_sdocs itself (other properties).',
+    'note': 'the interpreter implements the Python subset used by __init__.py (locals(), dict comprehensions, ** calls, global '
+            'rebinding); anything else ends in ANALYSIS-ERROR',
+    'technique': 'static analysis: abstract interpretation of the entry points with recording primitives over given/omitted '
+                 'scenarios; who-may-write inventory',
 }
 
 SETTINGS_MIN = 6
 
 
 def _sentinel_name(m):
-    # the module-level object used as "argument not given"
     for name, vals in m.assigns.items():
         v = vals[-1]
         if isinstance(v, ast.Call) and call_name(v) in ('UnsetSentinel', 'object') and 'SENTINEL' in name.upper():
@@ -30,128 +41,79 @@ def _sentinel_name(m):
     raise AnalysisError('cannot identify the unset sentinel in prettyprinter/__init__.py')
 
 
-def _is_sentinel_test(test, pol, var, sent):
-    """does (test, pol) say ``var is not sentinel``?"""
-    cp = compare_parts(test, pol)
-    if not cp:
-        return False
-    l, op, r = cp
-    pair = {src(l), src(r)}
-    return pair == {var, sent} and op in ('is not', '!=')
+class Recorder:
+    def __init__(self, repo):
+        self.repo = repo
+        self.log = []
+        prims = {
+            'python_to_sdocs': self.p_pipeline,
+            'default_render_to_stream': self.p_render_plain,
+            'colored_render_to_stream': self.p_render_color,
+            'StringIO': self.p_stringio,
+            'set_default_style': self.p_set_style,
+            'is_registered': self.p_is_registered,
+            'warnings.warn': self.p_warn,
+            'object.__repr__': self.p_object_repr,
+            'method:write': self.m_write,
+            'method:getvalue': self.m_getvalue,
+        }
+        self.it = S.interp(repo, 'builder', prims, max_paths=4000)
+        self.it.concrete_context = True
+        self.it.concrete_classes = {'UnsetSentinel', 'PrettyPrinter'}
+        self.n_stringio = 0
+        # module-level assignments happen at import time, i.e. before anything the scenarios do
+        m = repo.module('')
+        for name in m.assigns:
+            try:
+                self.it.global_name(m, name)
+            except (AnalysisError, Raised):
+                pass
 
+    def p_pipeline(self, it, a, k, n):
+        self.log.append(('pipeline', list(a), dict(k)))
+        return Sym('SDOCS#%d' % len(self.log))
 
-def _merge_fn(repo, m):
-    merge = m.funcs.get('_merge_defaults')
-    if merge is None:
-        for f in m.funcs.values():
-            for c in ast.walk(f.node):
-                if isinstance(c, ast.Call) and call_name(c) == 'python_to_sdocs':
-                    for k in c.keywords:
-                        if k.arg is None and isinstance(k.value, ast.Call):
-                            r = m.funcs.get(call_name(k.value))
-                            if r:
-                                merge = r
-    if merge is None:
-        raise AnalysisError('merge helper vanished')
-    return merge
+    def p_render_plain(self, it, a, k, n):
+        self.log.append(('render-plain', list(a), dict(k)))
+        return NONE
 
+    def p_render_color(self, it, a, k, n):
+        self.log.append(('render-color', list(a), dict(k)))
+        return NONE
 
-def check_merge(repo, rep, rule):
-    """sentinel merge: name sets agree, explicit argument (including an explicit None) wins over the
-    default, defaults read at call time.  Shared with C10 (None must reach python_to_sdocs)."""
-    m = repo.module('')
-    sent = _sentinel_name(m)
-    pts = repo.func('prettyprinter', 'python_to_sdocs')
-    settings = pts.params[1:]
-    merge = _merge_fn(repo, m)
-    dc = m.assigns.get('_default_config')
-    if not dc or not isinstance(dc[0], ast.Dict):
-        raise AnalysisError('_default_config is no longer a dict literal')
-    default_keys = [k.value for k in dc[0].keys if isinstance(k, ast.Constant)]
-    # ---------------------------------------------------------------- C18.b name sets
-    n = 0
-    mparams = merge.params
-    n += 1
-    rep.check(set(mparams) == set(default_keys) == set(settings), rule, 'name-sets-agree', merge.where,
-              'merge parameters = default keys = python_to_sdocs settings',
-              'setting name sets differ: merge helper %s, _default_config %s, python_to_sdocs %s'
-              % (sorted(mparams), sorted(default_keys), sorted(settings)), nontrivial=True)
-    a = merge.node.args
-    n += 1
-    rep.check(not a.defaults and all(d is None for d in a.kw_defaults), rule, 'merge:no-captured-defaults',
-              merge.where, 'merge helper has no definition-time defaults',
-              'the merge helper declares default values (captured at definition time)')
-    # body shape
-    uses_locals = any(isinstance(c, ast.Call) and call_name(c) == 'locals' for c in ast.walk(merge.node))
-    comp = [c for c in ast.walk(merge.node) if isinstance(c, ast.DictComp)]
-    loads_default_at_call = any(isinstance(x, ast.Name) and x.id == '_default_config' for x in ast.walk(merge.node))
-    n += 1
-    rep.check(loads_default_at_call, rule, 'merge:defaults-read-at-call-time', merge.where,
-              '_default_config loaded inside the function body',
-              'the merge helper does not read _default_config when called: a later set_default_config is not seen',
-              nontrivial=True)
-    if comp and uses_locals:
-        c = comp[0]
-        gen = c.generators[0]
-        ok_iter = src(gen.iter) == '_default_config.items()' and isinstance(gen.target, ast.Tuple) \
-            and len(gen.target.elts) == 2
-        n += 1
-        rep.check(ok_iter, rule, 'merge:iterates-default-items', '%s:%d' % (m.relpath, c.lineno),
-                  'every default key is merged', 'merge comprehension iterates %s' % src(gen.iter))
-        if ok_iter:
-            kvar, dvar = (e.id for e in gen.target.elts)
-            lv = None
-            for s in ast.walk(merge.node):
-                if isinstance(s, ast.Assign) and isinstance(s.value, ast.Call) and call_name(s.value) == 'locals':
-                    lv = s.targets[0].id
-            arg = '%s[%s]' % (lv, kvar)
-            v = c.value
-            n += 1
-            good = src(c.key) == kvar and isinstance(v, ast.IfExp)
-            if good:
-                if _is_sentinel_test(v.test, True, arg, sent):
-                    good = src(v.body) == arg and src(v.orelse) == dvar
-                elif _is_sentinel_test(v.test, False, arg, sent):
-                    good = src(v.orelse) == arg and src(v.body) == dvar
-                else:
-                    good = False
-            rep.check(good, rule, 'merge:explicit-overrides-default', '%s:%d' % (m.relpath, c.lineno),
-                      'argument unless it is the sentinel, else the default',
-                      'merged value is %s for key %s: an explicit argument must win unless it is the sentinel %s'
-                      % (src(v), src(c.key), sent), nontrivial=True)
-            # locals() taken before any other local is bound
-            first = merge.node.body[0]
-            if isinstance(first, ast.Expr) and isinstance(first.value, ast.Constant):
-                first = merge.node.body[1]
-            n += 1
-            rep.check(isinstance(first, ast.Assign) and isinstance(first.value, ast.Call)
-                      and call_name(first.value) == 'locals', rule, 'merge:locals-first', merge.where,
-                      'locals() captured first', 'locals() is not captured before other locals are bound')
-    else:
-        # explicit per-key idiom: x if x is not S else D['x']
-        for key in default_keys:
-            n += 1
-            found = False
-            for e in ast.walk(merge.node):
-                if isinstance(e, ast.IfExp):
-                    for pol, mine, other in ((True, e.body, e.orelse), (False, e.orelse, e.body)):
-                        if _is_sentinel_test(e.test, pol, key, sent) and src(mine) == key \
-                                and src(other) in ("_default_config['%s']" % key, '_default_config["%s"]' % key):
-                            found = True
-            rep.check(found, rule, 'merge:explicit-overrides-default:%s' % key, merge.where,
-                      'argument unless sentinel else default',
-                      'no "%s if %s is not %s else _default_config[%r]" found for setting %s' % (key, key, sent, key, key),
-                      nontrivial=True)
-    return n
+    def p_stringio(self, it, a, k, n):
+        self.n_stringio += 1
+        return Sym('StringIO#%d' % self.n_stringio)
 
+    def p_set_style(self, it, a, k, n):
+        self.log.append(('set-style', list(a), dict(k)))
+        return NONE
+
+    def p_is_registered(self, it, a, k, n):
+        self.log.append(('is_registered', list(a), dict(k)))
+        return Const(it.decide('registered(%s)' % prov(a[0])))
+
+    def p_warn(self, it, a, k, n):
+        self.log.append(('warn', list(a), dict(k)))
+        return NONE
+
+    def p_object_repr(self, it, a, k, n):
+        return Sym('object.__repr__(%s)' % ','.join(prov(x) for x in a))
+
+    def m_write(self, it, obj, a, k, n):
+        self.log.append(('write', obj, list(a)))
+        return NONE
+
+    def m_getvalue(self, it, obj, a, k, n):
+        return Sym('%s.getvalue()' % prov(obj))
 
 
 def run(repo, rep):
-    rep.explanation = ('R-SIB / R-GUARD / R-WHO wiring rules over __init__.py: C18.a sibling entry points, C18.b '
-                       'sentinel merge with name-set agreement and call-time defaults, C18.c exact '
-                       'set_default_config, C18.d PrettyPrinter forwards its argument, C18.e pretty_repr.')
+    rep.explanation = ('C18.a entry points (object first, every setting given-or-default, same sdocs rendered, end written), C18.b merge '
+                       '(explicit argument wins unless it is the sentinel; defaults read at call time; name sets agree), C18.c exact '
+                       'set_default_config / get_default_config, C18.d PrettyPrinter forwards, C18.e pretty_repr; R-WHO on the default table.')
     rep.not_decided = 'the behaviour of python_to_sdocs itself (decided under other properties).'
-    rep.assumptions = ['ast parser', 'dict comprehension / locals() semantics of CPython']
+    rep.assumptions = ['CPython semantics of locals(), dict comprehensions, ** calls']
     m = repo.module('')
     sent = _sentinel_name(m)
     pts = repo.func('prettyprinter', 'python_to_sdocs')
@@ -159,261 +121,337 @@ def run(repo, rep):
     rep.analysed['settings'] = settings
     if len(settings) < SETTINGS_MIN:
         raise AnalysisError('python_to_sdocs takes %s: fewer settings than the property names' % settings)
-    merge = m.funcs.get('_merge_defaults')
-    if merge is None:
-        # role-based fallback: the function whose result is splatted into python_to_sdocs
-        for f in m.funcs.values():
-            for c in ast.walk(f.node):
-                if isinstance(c, ast.Call) and call_name(c) == 'python_to_sdocs':
-                    for k in c.keywords:
-                        if k.arg is None and isinstance(k.value, ast.Call):
-                            r = m.funcs.get(call_name(k.value))
-                            if r:
-                                merge = r
-    if merge is None:
-        raise AnalysisError('merge helper vanished')
     dc = m.assigns.get('_default_config')
     if not dc or not isinstance(dc[0], ast.Dict):
         raise AnalysisError('_default_config is no longer a dict literal')
     default_keys = [k.value for k in dc[0].keys if isinstance(k, ast.Constant)]
-
-    rep.floor('C18.b', check_merge(repo, rep, 'C18.b'), 5)
-
-    # ---------------------------------------------------------------- C18.a entry points
     n = 0
-    renderers = {'pformat': 'default_render_to_stream', 'pprint': 'default_render_to_stream',
-                 'cpprint': 'colored_render_to_stream'}
-    for ename, rname in renderers.items():
+    rep.check(set(default_keys) == set(settings), 'C18.b', 'name-sets-agree', m.relpath, 'default keys = python_to_sdocs settings',
+              'setting name sets differ: _default_config %s, python_to_sdocs %s' % (sorted(default_keys), sorted(settings)), nontrivial=True)
+    n += 1
+
+    def given(name):
+        return Const('<given:%s>' % name)
+
+    def scenarios():
+        yield 'all-omitted', set()
+        yield 'all-given', set(settings)
+        for s_ in settings:
+            yield 'only-' + s_, {s_}
+            yield 'all-but-' + s_, set(settings) - {s_}
+
+    def default_table(rec):
+        t = rec.it.global_name(m, '_default_config')
+        return t if isinstance(t, DictV) else None
+
+    def check_pipeline(rec, ename, label, gv, where, table, rule='C18.a'):
+        nonlocal n
+        calls = [e for e in rec.log if e[0] == 'pipeline']
+        n += 1
+        if len(calls) != 1:
+            rep.fail(rule, '%s:calls-pipeline[%s]' % (ename, label), where, '%s calls python_to_sdocs %d times' % (ename, len(calls)))
+            return None
+        _, a, k = calls[0]
+        bound = dict(zip(pts.params, a))
+        bound.update(k)
+        rep.check(prov(bound.get(pts.params[0])) == 'OBJ', rule, '%s:object-first' % ename, where, 'the printed object is the first argument',
+                  '%s passes %s as the value to print' % (ename, prov(bound.get(pts.params[0])) if pts.params[0] in bound else 'nothing'), nontrivial=True)
+        for s_ in settings:
+            v = bound.get(s_)
+            if s_ in gv:
+                want = given(s_)
+                ok = isinstance(v, Const) and v.v == want.v
+                why = 'the explicit argument'
+            else:
+                d = table.get(Const(s_)) if table is not None else None
+                ok = v is not None and d is not None and (v is d or (isinstance(v, Const) and isinstance(d, Const) and v.v == d.v and type(v.v) is type(d.v)))
+                want = d
+                why = 'the current default'
+            cname = '%s:forwards:%s' % (ename, s_) if rule == 'C18.a' else '%s:%s[%s]' % (ename, s_, label)
+            rep.check(ok, rule if s_ in gv or rule != 'C18.a' else 'C18.a', cname, where,
+                      'setting reaches the pipeline as %s' % why,
+                      'in scenario %s, %s hands python_to_sdocs %s=%s; expected %s (%s): an explicit argument must override the default, '
+                      'an omitted one must take the configured default' % (label, ename, s_, prov(v) if v is not None else '<missing>',
+                                                                          prov(want) if want is not None else '?', why), nontrivial=True)
+            n += 1
+        return calls[0]
+
+    # ---------------------------------------------------------------- C18.a / C18.b entry points
+    for ename in ('pformat', 'pprint', 'cpprint'):
         f = m.funcs.get(ename)
         if f is None:
             raise AnalysisError('entry point %s vanished' % ename)
-        obj = f.params[0]
-        # defaults of settings are the sentinel
-        a = f.node.args
-        pos = a.posonlyargs + a.args
-        defaults = dict(zip([x.arg for x in pos[len(pos) - len(a.defaults):]], a.defaults))
-        defaults.update({k.arg: d for k, d in zip(a.kwonlyargs, a.kw_defaults) if d is not None})
-        for s_ in settings:
-            n += 1
-            rep.check(s_ in defaults and src(defaults[s_]) == sent, 'C18.a', '%s:default-is-sentinel:%s' % (ename, s_),
-                      f.where, 'setting defaults to the sentinel',
-                      '%s(%s=...) defaults to %s instead of the sentinel: the configured default is bypassed'
-                      % (ename, s_, src(defaults[s_]) if s_ in defaults else 'nothing (parameter missing)'))
-        calls = [c for c in ast.walk(f.node) if isinstance(c, ast.Call) and call_name(c) == 'python_to_sdocs']
-        n += 1
-        if len(calls) != 1:
-            rep.fail('C18.a', '%s:calls-pipeline' % ename, f.where, '%s calls python_to_sdocs %d times' % (ename, len(calls)))
-            continue
-        c = calls[0]
-        rep.check(c.args and src(c.args[0]) == obj, 'C18.a', '%s:object-first' % ename, '%s:%d' % (m.relpath, c.lineno),
-                  'the printed object is the first argument',
-                  '%s passes %s as the value to print' % (ename, src(c.args[0]) if c.args else 'nothing'), nontrivial=True)
-        splat = [k.value for k in c.keywords if k.arg is None]
-        direct = {k.arg: k.value for k in c.keywords if k.arg}
-        passed = {}
-        if splat and isinstance(splat[0], ast.Call) and call_name(splat[0]) == merge.name:
-            for k in splat[0].keywords:
-                if k.arg:
-                    passed[k.arg] = k.value
-        for s_ in settings:
-            n += 1
-            v = passed.get(s_, direct.get(s_))
-            rep.check(v is not None and src(v) == s_, 'C18.a', '%s:forwards:%s' % (ename, s_), '%s:%d' % (m.relpath, c.lineno),
-                      'setting forwarded under its own name',
-                      '%s forwards %s=%s (each setting must be passed under its own name)'
-                      % (ename, s_, src(v) if v is not None else '<missing>'), nontrivial=True)
-        # result variable rendered
-        sd = None
-        for s in ast.walk(f.node):
-            if isinstance(s, ast.Assign) and s.value is c and isinstance(s.targets[0], ast.Name):
-                sd = s.targets[0].id
-        rc = [x for x in ast.walk(f.node) if isinstance(x, ast.Call) and call_name(x) == rname]
-        n += 1
-        ok = len(rc) == 1 and len(rc[0].args) >= 2 and src(rc[0].args[1]) == sd
-        rep.check(ok, 'C18.a', '%s:renders-same-sdocs' % ename, f.where, 'renders the sdocs it computed with %s' % rname,
-                  '%s does not render its own sdocs through %s exactly once' % (ename, rname), nontrivial=True)
-        if not ok:
-            continue
-        stream_arg = src(rc[0].args[0])
-        if ename == 'pformat':
-            rets = [r for r in ast.walk(f.node) if isinstance(r, ast.Return) and r.value is not None]
-            n += 1
-            rep.check(len(rets) == 1 and src(rets[0].value) == '%s.getvalue()' % stream_arg, 'C18.a',
-                      'pformat:returns-stream-value', f.where, 'returns exactly what was rendered',
-                      'pformat returns %s' % [src(r.value) for r in rets], nontrivial=True)
-            kw = {k.arg for k in rc[0].keywords}
-            rep.check(len(rc[0].args) == 2 and not kw, 'C18.a', 'pformat:default-newline', f.where,
-                      'default newline/separator', 'pformat passes extra rendering arguments %s' % sorted(kw))
-        else:
-            # stream = sys.stdout if stream is sentinel else stream   (read at call time)
-            g = Guards(f.node)
-            sparam = 'stream'
-            assigns = [s for s in ast.walk(f.node) if isinstance(s, ast.Assign)
-                       and isinstance(s.targets[0], ast.Name) and s.targets[0].id == stream_arg and s.value is not c]
-            n += 1
-            good = False
-            for s in assigns:
-                v = s.value
-                if isinstance(v, ast.IfExp):
-                    cp = compare_parts(v.test)
-                    if cp and {src(cp[0]), src(cp[2])} == {sparam, sent}:
-                        pos_is = cp[1] in ('is', '==')
-                        std, oth = (v.body, v.orelse) if pos_is else (v.orelse, v.body)
-                        good = src(std) == 'sys.stdout' and src(oth) == sparam
-            rep.check(good, 'C18.a', '%s:stream-choice' % ename, f.where,
-                      'given stream, else sys.stdout read at call time',
-                      '%s does not select "sys.stdout if stream is %s else stream"' % (ename, sent), nontrivial=True)
-            # end written after rendering, when truthy
-            ws = [x for x in ast.walk(f.node) if isinstance(x, ast.Call) and call_name(x) == stream_arg + '.write']
-            n += 1
-            ok = len(ws) == 1 and src(ws[0].args[0]) == 'end' and ws[0].lineno > rc[0].lineno \
-                and any(ff.pol and ff.text == 'end' for ff in g.of(ws[0]))
-            rep.check(ok, 'C18.a', '%s:writes-end' % ename, f.where, 'end string written after the text',
-                      '%s does not write exactly the end string after rendering' % ename, nontrivial=True)
+        for label, gv in scenarios():
+            rec = Recorder(repo)
+            kw = {s_: given(s_) for s_ in gv}
+            stream = None
+            if ename != 'pformat':
+                stream = Const('<STREAM>')
+                kw['stream'] = stream
             if ename == 'cpprint':
-                kws = {k.arg: src(k.value) for k in rc[0].keywords}
-                rep.check(kws.get('style', src(rc[0].args[2]) if len(rc[0].args) > 2 else None) == 'style', 'C18.a',
-                          'cpprint:style-forwarded', f.where, 'style forwarded', 'cpprint passes style=%s' % kws.get('style'))
-    rep.floor('C18.a', n, 45)
+                kw['style'] = Const('<STYLE>')
+            try:
+                prs = rec.it.explore(f, [Sym('OBJ')], kw)
+            except (Undecided,) as e:
+                rep.undecided('C18.a', '%s[%s]' % (ename, label), f.where, str(e))
+                n += 1
+                continue
+            rep.count(len(prs))
+            if len(prs) != 1 or prs[0].raised is not None:
+                n += 1
+                rep.fail('C18.a', '%s:single-path[%s]' % (ename, label), f.where,
+                         '%s has %d paths / raises %s in scenario %s' % (ename, len(prs), prs[0].raised.what if prs and prs[0].raised else '', label))
+                continue
+            table = default_table(rec)
+            call = check_pipeline(rec, ename, label, gv, f.where, table)
+            if call is None:
+                continue
+            sd = None
+            # the value returned by the recording pipeline primitive
+            idx = rec.log.index(call)
+            sd = 'SDOCS#%d' % (idx + 1)
+            kind = 'render-plain' if ename != 'cpprint' else 'render-color'
+            rend = [e for e in rec.log if e[0] in ('render-plain', 'render-color')]
+            n += 1
+            okr = len(rend) == 1 and rend[0][0] == kind and len(rend[0][1]) >= 2 and prov(rend[0][1][1]) == sd
+            rep.check(okr, 'C18.a', '%s:renders-same-sdocs' % ename, f.where, 'renders the sdocs it computed with the %s renderer' % ('plain' if kind == 'render-plain' else 'coloured'),
+                      '%s renders %s (expected exactly one %s of %s)' % (ename, [(e[0], [prov(x) for x in e[1]]) for e in rend], kind, sd), nontrivial=True)
+            if not okr:
+                continue
+            rstream = rend[0][1][0]
+            writes = [e for e in rec.log if e[0] == 'write']
+            if ename == 'pformat':
+                n += 1
+                rep.check(prov(rstream).startswith('StringIO#') and prov(prs[0].value) == prov(rstream) + '.getvalue()' and not writes
+                          and len(rend[0][1]) == 2 and not rend[0][2], 'C18.a', 'pformat:returns-stream-value', f.where,
+                          'returns exactly what the plain renderer wrote into a fresh StringIO',
+                          'pformat renders into %s and returns %s' % (prov(rstream), prov(prs[0].value)), nontrivial=True)
+            else:
+                n += 1
+                rep.check(rstream is stream, 'C18.a', '%s:stream-choice' % ename, f.where, 'renders to the given stream',
+                          '%s renders to %s although stream=STREAM was given' % (ename, prov(rstream)), nontrivial=True)
+                n += 1
+                pos = {id(e): i for i, e in enumerate(rec.log)}
+                okw = len(writes) == 1 and writes[0][1] is stream and [prov(x) for x in writes[0][2]] == [repr('\n')] and pos[id(writes[0])] > pos[id(rend[0])]
+                rep.check(okw, 'C18.a', '%s:writes-end' % ename, f.where, 'end string written to the same stream after the text',
+                          '%s writes %s' % (ename, [(prov(e[1]), [prov(x) for x in e[2]]) for e in writes]), nontrivial=True)
+                if ename == 'cpprint':
+                    n += 1
+                    st = rend[0][2].get('style', rend[0][1][2] if len(rend[0][1]) > 2 else None)
+                    rep.check(st is not None and prov(st) == repr('<STYLE>'), 'C18.a', 'cpprint:style-forwarded', f.where, 'style forwarded',
+                              'cpprint passes style=%s' % (prov(st) if st is not None else None))
+        # stream omitted -> sys.stdout read at call time ; end='' -> nothing written
+        if ename != 'pformat':
+            rec = Recorder(repo)
+            try:
+                prs = rec.it.explore(f, [Sym('OBJ')], {'end': Const('')})
+                rend = [e for e in rec.log if e[0] in ('render-plain', 'render-color')]
+                n += 1
+                rep.check(len(rend) == 1 and prov(rend[0][1][0]) == 'sys.stdout', 'C18.a', '%s:stdout-at-call-time' % ename, f.where,
+                          'stream defaults to sys.stdout, read when called',
+                          'without a stream argument %s renders to %s' % (ename, [prov(e[1][0]) for e in rend]), nontrivial=True)
+                n += 1
+                rep.check(not [e for e in rec.log if e[0] == 'write'], 'C18.a', '%s:empty-end-not-written' % ename, f.where, 'nothing written for a falsy end',
+                          '%s writes an end string although end is empty' % ename)
+            except Undecided as e:
+                rep.undecided('C18.a', '%s[no-stream]' % ename, f.where, str(e))
+    rep.floor('C18.a', n, 150)
 
-    # ---------------------------------------------------------------- C18.c set_default_config
-    n = 0
+    # ---------------------------------------------------------------- C18.c set_default_config / get_default_config, then entry points see it
+    n0 = n
     sdc = m.funcs.get('set_default_config')
     gdc = m.funcs.get('get_default_config')
     if sdc is None or gdc is None:
         raise AnalysisError('set_default_config / get_default_config vanished')
-    g = Guards(sdc.node)
-    declared_global = any(isinstance(s, ast.Global) and '_default_config' in s.names for s in ast.walk(sdc.node))
-    # the working dict: a copy of the current defaults, or the global itself
-    work = None
-    for s in ast.walk(sdc.node):
-        if isinstance(s, ast.Assign) and isinstance(s.targets[0], ast.Name) and \
-                src(s.value).replace(' ', '') in ('{**_default_config}', 'dict(_default_config)', '_default_config.copy()'):
-            work = s.targets[0].id
-    target = work or '_default_config'
-    stores = [s for s in ast.walk(sdc.node) if isinstance(s, ast.Assign) and isinstance(s.targets[0], ast.Subscript)
-              and src(s.targets[0].value) == target]
-    by_key = {}
-    for s in stores:
-        k = s.targets[0].slice
-        by_key.setdefault(k.value if isinstance(k, ast.Constant) else src(k), []).append(s)
-    for p in sdc.params:
-        if p == 'style':
-            continue
-        n += 1
-        ss = by_key.pop(p, [])
-        ok = len(ss) == 1 and src(ss[0].value) == p and \
-            any(_is_sentinel_test(ff.test, ff.pol, p, sent) for ff in g.of(ss[0]))
-        rep.check(ok, 'C18.c', 'set_default_config:stores:%s' % p, sdc.where,
-                  'one store to its own key under "is not sentinel"',
-                  "set_default_config must store %s under key '%s' exactly once, only when it was given; found %s"
-                  % (p, p, [(src(s.targets[0]), src(s.value), g.texts(s)) for s in ss] or 'no store'), nontrivial=True)
-        rep.check(p in default_keys, 'C18.c', 'set_default_config:param-is-setting:%s' % p, sdc.where,
-                  'parameter names a setting', 'set_default_config takes %s which is not a key of _default_config' % p)
-    for k, ss in by_key.items():
-        n += 1
-        rep.fail('C18.c', 'set_default_config:extra-store:%s' % k, '%s:%d' % (m.relpath, ss[0].lineno),
-                 'set_default_config writes key %r which is not one of its parameters' % (k,))
-    n += 1
-    if work:
-        rebinds = [s for s in ast.walk(sdc.node) if isinstance(s, ast.Assign) and src(s.targets[0]) == '_default_config']
-        rep.check(declared_global and len(rebinds) == 1 and src(rebinds[0].value) == work, 'C18.c',
-                  'set_default_config:rebinds-global', sdc.where, 'new table installed as the module default',
-                  'set_default_config does not rebind the module-level _default_config to the updated copy', nontrivial=True)
-    else:
-        rep.check(bool(stores), 'C18.c', 'set_default_config:mutates-global', sdc.where, 'table updated in place',
-                  'set_default_config neither rebinds nor updates _default_config')
-    # style is routed to set_default_style only when given
-    for c in ast.walk(sdc.node):
-        if isinstance(c, ast.Call) and call_name(c) == 'set_default_style':
+    sparams = [p for p in sdc.params if p != 'style']
+    for label, gv in [('none', set())] + [('only-' + p, {p}) for p in sparams] + [('all', set(sparams))]:
+        rec = Recorder(repo)
+        before = default_table(rec)
+        before_items = {k.v: v for k, v in before.items} if before is not None else {}
+        kw = {p: Const('<new:%s>' % p) for p in gv}
+        try:
+            prs = rec.it.explore(sdc, [], kw)
+        except Undecided as e:
+            rep.undecided('C18.c', 'set_default_config[%s]' % label, sdc.where, str(e))
             n += 1
-            rep.check(any(_is_sentinel_test(ff.test, ff.pol, 'style', sent) for ff in g.of(c)) and src(c.args[0]) == 'style',
-                      'C18.c', 'set_default_config:style-guarded', '%s:%d' % (m.relpath, c.lineno), 'style only when given',
-                      'set_default_style is called without the "style is not sentinel" guard')
+            continue
+        rep.count(len(prs))
+        after = default_table(rec)
+        n += 1
+        if after is None or len(prs) != 1 or prs[0].raised is not None:
+            rep.fail('C18.c', 'set_default_config:interpretable[%s]' % label, sdc.where, 'set_default_config does not leave a default table behind')
+            continue
+        after_items = {k.v: v for k, v in after.items}
+        for key in sorted(set(before_items) | set(after_items)):
+            want = ('<new:%s>' % key) if key in gv else None
+            got = after_items.get(key)
+            if want is not None:
+                ok = isinstance(got, Const) and got.v == want
+            else:
+                b = before_items.get(key)
+                ok = got is b or (isinstance(got, Const) and isinstance(b, Const) and got.v == b.v)
+            n += 1
+            rep.check(ok, 'C18.c', 'set_default_config:stores:%s' % key if key in gv else 'set_default_config:keeps:%s[%s]' % (key, label), sdc.where,
+                      'exactly the given settings change',
+                      'after set_default_config(%s) the default for %r is %s (before: %s): it must change exactly the settings it is given'
+                      % (', '.join(sorted(gv)), key, prov(got) if got is not None else '<missing>', prov(before_items.get(key)) if key in before_items else '<missing>'),
+                      nontrivial=True)
+        n += 1
+        rep.check(not [e for e in rec.log if e[0] == 'set-style'], 'C18.c', 'set_default_config:style-untouched[%s]' % label, sdc.where,
+                  'style only when given', 'set_default_style is called although no style was given')
+        # later calls without explicit arguments use the new table (defaults are read at call time)
+        if gv:
+            rec.log.clear()
+            try:
+                pf = m.funcs['pformat']
+                rec.it.explore(pf, [Sym('OBJ')], {})
+                check_pipeline(rec, 'pformat-after-set_default_config', label, set(), sdc.where, after, rule='C18.b')
+            except Undecided as e:
+                rep.undecided('C18.b', 'pformat-after-set_default_config[%s]' % label, sdc.where, str(e))
+            # get_default_config reports the current table
+            try:
+                g = rec.it.explore(gdc, [], {})
+                n += 1
+                rep.check(len(g) == 1 and g[0].value is after, 'C18.c', 'get_default_config:reports-current[%s]' % label, gdc.where,
+                          'get_default_config is a view of the current table', 'get_default_config returns %s' % prov(g[0].value) if g else '?', nontrivial=True)
+            except Undecided as e:
+                rep.undecided('C18.c', 'get_default_config[%s]' % label, gdc.where, str(e))
+    # style routed
+    rec = Recorder(repo)
+    try:
+        rec.it.explore(sdc, [], {'style': Sym('STYLE')})
+        st = [e for e in rec.log if e[0] == 'set-style']
+        n += 1
+        rep.check(len(st) == 1 and [prov(x) for x in st[0][1]] == ['STYLE'], 'C18.c', 'set_default_config:style-routed', sdc.where,
+                  'style handed to set_default_style', 'set_default_config(style=...) calls %s' % [[prov(x) for x in e[1]] for e in st])
+    except Undecided as e:
+        rep.undecided('C18.c', 'set_default_config[style]', sdc.where, str(e))
+    # read-only view
+    rets = [r for r in ast.walk(gdc.node) if isinstance(r, ast.Return) and r.value is not None]
+    n += 1
+    rep.check(all('MappingProxyType' in src(r.value) for r in rets) and bool(rets), 'C18.c', 'get_default_config:read-only', gdc.where,
+              'read-only view', 'get_default_config returns %s (not a read-only view)' % [src(r.value) for r in rets])
     # who writes _default_config
     for f in m.funcs.values():
         if f is sdc:
             continue
-        for s in ast.walk(f.node):
-            tgt = None
-            if isinstance(s, (ast.Assign, ast.AugAssign)):
-                for t in (s.targets if isinstance(s, ast.Assign) else [s.target]):
-                    if '_default_config' in src(t).split('[')[0].split('.')[0:1]:
-                        tgt = t
-            if isinstance(s, ast.Call) and dotted(s.func) and dotted(s.func).startswith('_default_config.') \
-                    and s.func.attr in ('update', 'pop', 'clear', 'setdefault', 'popitem', '__setitem__'):
-                tgt = s
-            if isinstance(s, ast.Delete) and any('_default_config' in src(t) for t in s.targets):
-                tgt = s
-            if tgt is not None:
+        for s_ in ast.walk(f.node):
+            hit = False
+            if isinstance(s_, (ast.Assign, ast.AugAssign)):
+                for t in (s_.targets if isinstance(s_, ast.Assign) else [s_.target]):
+                    base = t
+                    while isinstance(base, (ast.Subscript, ast.Attribute)):
+                        base = base.value
+                    if isinstance(base, ast.Name) and base.id == '_default_config' and (isinstance(t, ast.Subscript) or
+                                                                                        any(isinstance(g_, ast.Global) and '_default_config' in g_.names for g_ in ast.walk(f.node))):
+                        hit = True
+            if isinstance(s_, ast.Call) and dotted(s_.func) and dotted(s_.func).startswith('_default_config.') \
+                    and s_.func.attr in ('update', 'pop', 'clear', 'setdefault', 'popitem', '__setitem__'):
+                hit = True
+            if isinstance(s_, ast.Delete) and any('_default_config' in src(t) for t in s_.targets):
+                hit = True
+            if hit:
                 n += 1
-                rep.fail('C18.c', '%s:writes-default-config' % f.qualname, '%s:%d' % (m.relpath, s.lineno),
+                rep.fail('C18.c', '%s:writes-default-config' % f.qualname, '%s:%d' % (m.relpath, s_.lineno),
                          '%s writes the default configuration; only set_default_config may' % f.qualname)
-    rets = [r for r in ast.walk(gdc.node) if isinstance(r, ast.Return)]
-    n += 1
-    rep.check(len(rets) == 1 and src(rets[0].value) in ('MappingProxyType(_default_config)',
-                                                         'types.MappingProxyType(_default_config)'),
-              'C18.c', 'get_default_config:read-only-view-of-current', gdc.where, 'read-only view of the current table',
-              'get_default_config returns %s' % [src(r.value) for r in rets], nontrivial=True)
-    rep.floor('C18.c', n, 8)
+    rep.floor('C18.c', n - n0, 40)
 
     # ---------------------------------------------------------------- C18.d PrettyPrinter
-    n = 0
+    n0 = n
     pp = m.classes.get('PrettyPrinter')
     if pp is None:
         raise AnalysisError('PrettyPrinter vanished')
-    init = pp.methods.get('__init__')
-    for meth, target in (('pformat', 'pformat'), ('pprint', 'pprint')):
-        f = pp.methods.get(meth)
-        n += 1
-        if f is None:
-            rep.fail('C18.d', 'PrettyPrinter.%s:exists' % meth, pp.where, 'method vanished')
-            continue
-        obj = f.params[1] if len(f.params) > 1 else None
-        calls = [c for c in ast.walk(f.node) if isinstance(c, ast.Call) and call_name(c) == target]
-        ok = False
-        detail = 'no call of %s' % target
-        for c in calls:
-            first = src(c.args[0]) if c.args else None
-            star = [src(a.value) for a in c.args if isinstance(a, ast.Starred)]
-            dstar = [src(k.value) for k in c.keywords if k.arg is None]
-            ok = first == obj and 'self._args' in star and 'self._kwargs' in dstar
-            detail = '%s(%s)' % (target, ', '.join([src(a) for a in c.args] + ['**' + d for d in dstar]))
-        rep.check(ok, 'C18.d', 'PrettyPrinter.%s:forwards-object' % meth, f.where,
-                  'object first, then the stored settings',
-                  'PrettyPrinter.%s(object) calls %s: the object to print is not passed'
-                  ' (TypeError: missing 1 required positional argument)' % (meth, detail), nontrivial=True)
-        if meth == 'pformat':
-            rets = [r for r in ast.walk(f.node) if isinstance(r, ast.Return) and r.value is not None]
+    for meth in ('pformat', 'pprint'):
+        rec = Recorder(repo)
+        try:
+            obj = rec.it.construct(TypeV('PrettyPrinter'), [], {'width': given('width'), 'sort_dict_keys': given('sort_dict_keys')}, None)
+            if meth == 'pprint':
+                obj2 = rec.it.construct(TypeV('PrettyPrinter'), [], {'width': given('width'), 'stream': Const('<STREAM>')}, None)
+                obj = obj2
+            f = pp.methods.get(meth)
+            if f is None:
+                n += 1
+                rep.fail('C18.d', 'PrettyPrinter.%s:exists' % meth, pp.where, 'method vanished')
+                continue
+            prs = rec.it.explore(f, [obj, Sym('OBJ')], {})
+        except Undecided as e:
+            rep.undecided('C18.d', 'PrettyPrinter.%s' % meth, pp.where, str(e))
             n += 1
-            rep.check(len(rets) == 1 and isinstance(rets[0].value, ast.Call) and call_name(rets[0].value) == target,
-                      'C18.d', 'PrettyPrinter.pformat:returns-text', f.where, 'returns the text', 'pformat method does not return the text')
-    if init is not None:
+            continue
+        calls = [e for e in rec.log if e[0] == 'pipeline']
         n += 1
-        st = {src(s.targets[0]): src(s.value) for s in ast.walk(init.node) if isinstance(s, ast.Assign)}
-        rep.check(st.get('self._args') == 'args' and st.get('self._kwargs') == 'kwargs', 'C18.d',
-                  'PrettyPrinter.__init__:stores-settings', init.where, 'settings stored', 'constructor stores %s' % st)
-    rep.floor('C18.d', n, 3)
+        ok = len(prs) == 1 and prs[0].raised is None and len(calls) == 1
+        detail = 'raises %s' % prs[0].raised.what if prs and prs[0].raised else '%d pipeline calls' % len(calls)
+        if ok:
+            _, a, k = calls[0]
+            bound = dict(zip(pts.params, a))
+            bound.update(k)
+            ok = prov(bound.get(pts.params[0])) == 'OBJ' and isinstance(bound.get('width'), Const) and bound['width'].v == '<given:width>'
+            if meth == 'pformat':
+                ok = ok and isinstance(bound.get('sort_dict_keys'), Const) and bound['sort_dict_keys'].v == '<given:sort_dict_keys>'
+            detail = 'pipeline gets value=%s width=%s sort_dict_keys=%s' % (prov(bound.get(pts.params[0])) if pts.params[0] in bound else None,
+                                                                          prov(bound.get('width')) if 'width' in bound else None,
+                                                                          prov(bound.get('sort_dict_keys')) if 'sort_dict_keys' in bound else None)
+        rep.check(ok, 'C18.d', 'PrettyPrinter.%s:forwards-object' % meth, f.where, 'object and the stored settings reach the pipeline',
+                  'PrettyPrinter(...).%s(OBJ): %s - the object to print / the stored settings are not forwarded' % (meth, detail), nontrivial=True)
+        if meth == 'pformat' and prs and prs[0].raised is None:
+            n += 1
+            rep.check(prov(prs[0].value).endswith('.getvalue()'), 'C18.d', 'PrettyPrinter.pformat:returns-text', f.where, 'returns the text',
+                      'PrettyPrinter.pformat returns %s' % prov(prs[0].value))
+    rep.floor('C18.d', n - n0, 3)
 
     # ---------------------------------------------------------------- C18.e pretty_repr
-    pr = m.funcs.get('pretty_repr')
-    if pr is None:
+    n0 = n
+    pr_ = m.funcs.get('pretty_repr')
+    if pr_ is None:
         raise AnalysisError('pretty_repr vanished')
-    inst = pr.params[0]
-    g = Guards(pr.node)
-    rets = [r for r in ast.walk(pr.node) if isinstance(r, ast.Return) and r.value is not None]
-    good = [r for r in rets if src(r.value) == 'pformat(%s)' % inst]
-    rep.check(len(good) == 1, 'C18.e', 'pretty_repr:returns-pformat', pr.where, 'registered types return pformat(instance)',
-              'pretty_repr returns %s' % [src(r.value) for r in rets], nontrivial=True)
-    for r in rets:
-        if r in good:
+    rec = Recorder(repo)
+    try:
+        prs = rec.it.explore(pr_, [Sym('OBJ')], {})
+        for p_ in prs:
+            registered = dict(p_.facts).get('registered(type(OBJ))')
+            n += 1
+            if registered:
+                rep.check(p_.raised is None and prov(p_.value).endswith('.getvalue()'), 'C18.e', 'pretty_repr:returns-pformat', pr_.where,
+                          'registered types return pformat(instance)', 'pretty_repr returns %s for a registered type' % (prov(p_.value) if p_.value is not None else None),
+                          nontrivial=True)
+            else:
+                rep.check(p_.raised is None and not prov(p_.value).endswith('.getvalue()'), 'C18.e', 'pretty_repr:fallback-only-unregistered', pr_.where,
+                          'default repr only when nothing is registered', 'pretty_repr returns %s for an unregistered type' % (prov(p_.value) if p_.value is not None else None))
+        chk = [e for e in rec.log if e[0] == 'is_registered']
+        n += 1
+        rep.check(bool(chk) and all(prov(e[1][0]) == 'type(OBJ)' for e in chk), 'C18.e', 'pretty_repr:checks-own-type', pr_.where,
+                  'registration looked up for type(instance)', 'pretty_repr consults is_registered(%s)' % [prov(e[1][0]) for e in chk])
+    except Undecided as e:
+        rep.undecided('C18.e', 'pretty_repr', pr_.where, str(e))
+    rep.floor('C18.e', n - n0, 2)
+
+
+def check_merge(repo, rep, rule):
+    """shared with C10: an explicit argument - including an explicit None - must reach python_to_sdocs"""
+    m = repo.module('')
+    pts = repo.func('prettyprinter', 'python_to_sdocs')
+    settings = pts.params[1:]
+    f = m.funcs.get('pformat')
+    n = 0
+    for s_ in settings:
+        rec = Recorder(repo)
+        try:
+            prs = rec.it.explore(f, [Sym('OBJ')], {s_: Const(None)})
+        except Undecided as e:
+            rep.undecided(rule, 'merge:explicit-none:%s' % s_, f.where, str(e))
+            n += 1
             continue
-        fs = g.of(r)
-        rep.check(any((not ff.pol) and 'is_registered(' in ff.text for ff in fs), 'C18.e', 'pretty_repr:fallback-only-unregistered',
-                  '%s:%d' % (m.relpath, r.lineno), 'fallback only when unregistered',
-                  'pretty_repr returns %s without the "not registered" guard' % src(r.value))
-    for r in good:
-        fs = g.of(r)
-        rep.check(any(ff.pol and 'is_registered(' in ff.text for ff in fs), 'C18.e', 'pretty_repr:pformat-when-registered',
-                  '%s:%d' % (m.relpath, r.lineno), 'pformat used when registered', 'pformat branch not guarded by registration')
-    rep.count(len(settings) * 3)
+        calls = [e for e in rec.log if e[0] == 'pipeline']
+        n += 1
+        ok = len(calls) == 1
+        got = None
+        if ok:
+            bound = dict(zip(pts.params, calls[0][1]))
+            bound.update(calls[0][2])
+            got = bound.get(s_)
+            ok = isinstance(got, Const) and got.v is None
+        rep.check(ok, rule, 'merge:explicit-overrides-default:%s' % s_, f.where, 'an explicit None is an explicit argument',
+                  'pformat(obj, %s=None) hands python_to_sdocs %s=%s: an explicitly passed None must override the default (it is not '
+                  '"argument omitted")' % (s_, s_, prov(got) if got is not None else '<missing>'), nontrivial=True)
+    return n
